@@ -514,6 +514,38 @@ def run(rep, tier="quick", replay=None, evidence_dir=None, collect_only=False):
         tests = [x for bb in fam for x in kind_tests(bb, 2)]
         rep.ob("C11.R5", "%s: an element of the wrong JSON kind is an error (%s) and the elements are kind-tested" % (fn.split("::")[-1], err), (has or viafn) and bool(tests), "", b0.loc())
 
+    # ------------------------------------------------------------ R6 union uniqueness is decided on the underlying type
+    rep.rule("C11.R6", "the kind under which a union branch is checked for uniqueness is the underlying type of its schema (specification table of logical types); every other shape is its own kind")
+    with open(os.path.join(common.VERIF, "rules", "tables", "spec_logical_base.toml"), "rb") as fh:
+        base_tab = tomllib.load(fh)["base"]
+    sb = prog.bodies.get("schema::union::schema_to_base_schemakind")
+    if sb is None:
+        rep.anchor_error("C11.R6", "schema::union::schema_to_base_schemakind")
+    else:
+        from wire import Wire
+        from vpes import top_shapes
+        svp = Wire(prog).vpes(sb)
+        n6 = 0
+        for s_, reg in top_shapes(svp, 1):
+            S_ = svp.shape_name(s_, 1)
+            outs = set()
+            for x in reg:
+                for st in sb.blocks[x]["stmts"]:
+                    if st["s"] == "assign" and st["pl"]["l"] == 0 and not st["pl"]["p"]:
+                        rv = st["rv"]
+                        if rv["r"] == "agg" and rv.get("variant"):
+                            outs.add(rv["variant"])
+                        else:
+                            outs.add("<itself>")
+            want = base_tab.get(S_, "<itself>")
+            n6 += 1
+            rep.ob("C11.R6", "a %s branch counts as %s for the uniqueness rule of unions" % (S_, want if want != "<itself>" else "its own kind"), outs == {want},
+                   "schema_to_base_schemakind answers %s for %s: a union with two branches of the same underlying type is accepted (or a legal union rejected)" % (sorted(outs), S_), sb.loc())
+        rep.floor("C11.R6", "schema shapes", n6, 31)
+    # the users: the builder keys its duplicate test on that kind
+    bld = [b for k, b in prog.bodies.items() if k.startswith("schema::union::UnionSchemaBuilder::variant") and b.kind != "Closure"]
+    rep.ob("C11.R6", "UnionSchemaBuilder::variant* key their duplicate test on schema_to_base_schemakind", bool(bld) and all(calls_named(b, "schema::union::schema_to_base_schemakind") for b in bld), "", bld[0].loc() if bld else "")
+
     if collect_only:
         return rep
     rep.floor("C11", "obligations", len(rep.obligations), 45)
